@@ -51,6 +51,7 @@ func newFixtures() *fixtures {
 	f := &fixtures{V: ks[0], S: ks[1], O: ks[2], T: ks[3], now: time.Now()}
 	f.iS, f.iO, f.iT = &forge.Ident{Name: "S", Priv: ks[1].Std}, &forge.Ident{Name: "O", Priv: ks[2].Std}, &forge.Ident{Name: "T", Priv: ks[3].Std}
 	f.ckA, f.ckB, f.ckE = forge.NewECDSAKey("A"), forge.NewECDSAKey("B"), forge.NewEd25519Key("E")
+	f.keylessExpected() // built here, before the parallel workers read it
 	var err error
 	f.honestO, err = forge.Build(forge.CertSpec{Key: f.ckB, Exts: []forge.Ext{{OID: forge.BindingOID, Value: forge.Binding(f.iO, f.ckB)}}, NotBefore: f.now.Add(-time.Hour), NotAfter: f.now.Add(1000 * time.Hour)})
 	if err != nil {
